@@ -105,6 +105,9 @@ def check_1d(case, ctx: Ctx):
         else:
             r = ctx.call(f"h[{index}]", do)
     elif kind in ("mask", "mask_list"):
+        if len(ix[1]) == 0:
+            ctx.label("empty_selection_out_of_domain")  # an empty list is not a mask
+            return
         if len(ix[1]) != n:
             ctx.label("refusal_wrong_mask_size")
             ctx.nt()
@@ -254,7 +257,15 @@ def check_nd(case, ctx: Ctx):
         return
     full = list(items) + [slice(None)] * (d - len(items))
     all_int = len(parts) == d and all(p[0] == "int" for p in parts)
-    r = ctx.call(what, call)
+    if any(p[0] == "slice" and p[3] is not None for p in parts):
+        # a slice with an explicit step may be refused; if it is answered it must be exact
+        ok, r = ctx.maybe(call)
+        if not ok:
+            ctx.label("stepped_slice_refused")
+            unchanged()
+            return
+    else:
+        r = ctx.call(what, call)
     if all_int and case["mode"] == "index":
         edges, value = r
         want_edges = [tuple(before["binnings"][a]["bins"][parts[a][1]]) for a in range(d)]
@@ -264,9 +275,8 @@ def check_nd(case, ctx: Ctx):
         ctx.nt(d >= 3)
         return
     if all(p[0] == "slice" and p[1:] == [None, None, None] for p in parts):
-        # identity: select() may return the histogram itself, [] must return a new object
-        if case["mode"] == "index":
-            require(r is not h, "identity_index_returns_self", "")
+        # identity selection: may return the histogram itself (C12 speaks of "a real selection" only)
+        ctx.label("identity_selection")
         unchanged()
         return
     kept = [a for a in range(d) if not (a < len(parts) and parts[a][0] == "int")]
